@@ -17,6 +17,7 @@ import (
 	"github.com/foxboron/go-uefi/efi/signature"
 	"github.com/foxboron/go-uefi/efi/util"
 	"github.com/foxboron/go-uefi/efivar"
+	"github.com/foxboron/go-uefi/pkcs7"
 
 	"verif/internal/hx"
 	"verif/internal/ossl"
@@ -74,6 +75,25 @@ func c06Payloads() []c06Payload {
 	out = append(out, c06Payload{"cert-list", m, e})
 	for _, n := range []int{1, 7, 8, 4096, 70000} {
 		out = append(out, c06Payload{"raw-" + strconv.Itoa(n), rawval(fill(n, 0x6b)), fill(n, 0x6b)})
+	}
+	// payloads that themselves look like what the function produces (a payload is opaque): a genuine
+	// signed update, a well-formed descriptor header with the PKCS7 type GUID over junk, a descriptor
+	// followed by lists, a DER SignedData
+	{
+		vtime.Set(time.Date(2024, 5, 6, 7, 8, 9, 0, time.UTC))
+		db, _ := signature.ReadSignatureDatabase(bytes.NewReader(refesl.Encode([]refesl.List{refesl.Mk(refesl.SHA256, 48, h(9))})))
+		if _, su, err := signature.SignEFIVariable(efivar.Db, &db, memoSignerFor(1), keys.C(1)); err == nil {
+			b := append([]byte{}, su.Bytes()...)
+			out = append(out, c06Payload{"a-genuine-signed-update-as-payload", rawval(b), b})
+		}
+		p7guid := []byte{0x9d, 0xd2, 0xaf, 0x4a, 0xdf, 0x68, 0xee, 0x49, 0x8a, 0xa9, 0x34, 0x7d, 0x37, 0x56, 0x65, 0xa7}
+		hdr := append([]byte{0xe8, 0x07, 5, 6, 7, 8, 9, 0, 0, 0, 0, 0, 0, 0, 0, 0}, 24+10, 0, 0, 0, 0x00, 0x02, 0xf1, 0x0e)
+		look := append(append(append([]byte{}, hdr...), p7guid...), fill(10, 0x30)...)
+		look = append(look, refesl.Encode([]refesl.List{refesl.Mk(refesl.SHA256, 48, h(4))})...)
+		out = append(out, c06Payload{"descriptor-look-alike-then-a-list", rawval(look), look})
+		if blob, err := pkcs7.SignPKCS7(memoSignerFor(1), keys.C(1), pkcs7.OIDData, []byte("x")); err == nil {
+			out = append(out, c06Payload{"a-DER-SignedData-as-payload", rawval(blob), blob})
+		}
 	}
 	return out
 }
